@@ -1,5 +1,5 @@
 """C17 — sync bookkeeping structures behave like their simple models (engine simstruct)."""
-import os, time
+import os, time, json
 from vlib import *
 from batchcheck import *
 
@@ -41,6 +41,21 @@ LOCATOR_NOTE = (
 )
 
 
+def determinism_selfcheck():
+    """each kind: a few seeded scenarios, each executed twice in separate processes; the
+    event-log hashes and verdicts must agree (a mismatch is a harness error, never a violation)"""
+    checked = 0
+    for kind in ("orphan", "inflight", "headermap", "ancestor", "locator"):
+        for i in range(3):
+            sc, _ = run_json([BIN, "gen", "--kind", kind, "--seed", str(seed_lo(9) + i)], timeout=600)
+            r1 = exec_scenario(BIN, sc)
+            r2 = exec_scenario(BIN, sc)
+            if r1["log_hash"] != r2["log_hash"] or bool(r1.get("violation")) != bool(r2.get("violation")):
+                raise HarnessError(f"determinism self-check failed for kind {kind} seed {sc['seed']}: {r1['log_hash']} vs {r2['log_hash']}")
+            checked += 1
+    return checked
+
+
 def run(tier, args):
     if args.replay:
         build(["simstruct"])
@@ -48,24 +63,42 @@ def run(tier, args):
     t0 = time.time()
     build(["simstruct"])
     q = tier == "quick"
+    # (name, engine args, number of seeded runs or None, seed stream, enumeration bound or None)
     parts = [
-        ("orphan_pool", ["--kind", "orphan"], 600_000 if q else 12_000_000, 0),
-        ("inflight_blocks", ["--kind", "inflight"], 400_000 if q else 8_000_000, 1),
-        ("header_map", ["--kind", "headermap"], 40_000 if q else 1_000_000, 2),
-        ("ancestor_skip_list", ["--kind", "ancestor"], 100_000 if q else 1_500_000, 3),
-        ("locator_on_sync_shared", ["--kind", "locator"], 16_000 if q else 400_000, 4),
+        ("orphan_pool", ["--kind", "orphan"], 600_000 if q else 8_000_000, 0, None),
+        ("inflight_blocks", ["--kind", "inflight"], 400_000 if q else 6_000_000, 1, None),
+        ("header_map", ["--kind", "headermap"], 40_000 if q else 800_000, 2, None),
+        ("ancestor_skip_list", ["--kind", "ancestor"], 100_000 if q else 1_000_000, 3, None),
+        ("locator_on_sync_shared", ["--kind", "locator"], 16_000 if q else 250_000, 4, None),
+        # bounded-exhaustive: every operation sequence up to the given length over a small alphabet
+        ("orphan_pool_all_sequences", ["--kind", "orphan-enum"], None, 0, 6 if q else 7),
+        ("inflight_blocks_all_sequences", ["--kind", "inflight-enum"], None, 0, 5 if q else 6),
+        ("header_map_all_sequences", ["--kind", "headermap-enum"], None, 0, 4 if q else 6),
+        ("ancestor_all_small_trees", ["--kind", "ancestor-enum"], None, 0, 96 if q else 220),
     ]
     if args.seeds:
         a, b = args.seeds.split("..")
-        parts = [(n, x, int(b) - int(a), s) for (n, x, _, s) in parts]
+        parts = [(n, x, int(b) - int(a), s, None) for (n, x, cnt, s, en) in parts if en is None]
+    n_det = determinism_selfcheck()
+    log(f"[{PROP}] determinism self-check: {n_det} scenarios x 2 processes agree")
     agg = Agg()
     timing = {}
-    for name, extra, n, stream in parts:
-        lo = seed_lo(stream) if not args.seeds else int(args.seeds.split("..")[0])
+    enumerated = {}
+    first_samples = []
+    for name, extra, n, stream, bound in parts:
         t1 = time.time()
-        doc, rc = run_json([BIN, "batch", "--seeds", f"{lo}..{lo+n}", "--threads", "16", *extra], timeout=7200)
+        if bound is None:
+            lo = seed_lo(stream) if not args.seeds else int(args.seeds.split("..")[0])
+            argv = [BIN, "batch", "--seeds", f"{lo}..{lo+n}", "--threads", "16", *extra]
+        else:
+            argv = [BIN, "batch", "--enumerate", str(bound), "--threads", "16", *extra]
+        doc, rc = run_json(argv, timeout=7200)
         dt = time.time() - t1
         timing[name] = {"runs": doc["runs"], "wall_s": round(dt, 2), "runs_per_hour": int(doc["runs"] / max(dt, 1e-3) * 3600)}
+        if bound is not None:
+            enumerated[name] = {"bound": bound, "cases": doc["runs"]}
+        if doc["samples"]:
+            first_samples.append(doc["samples"][0])
         log(f"[{PROP}] {name}: {doc['runs']} runs, {doc['nontrivial_runs']} non-trivial, {len(doc['violations'])} failing, {dt:.1f}s")
         agg.add(name, doc)
     if agg.harness_errors:
@@ -82,11 +115,17 @@ def run(tier, args):
         "inflight_blocks: at least one prune released an entry by time-out while at least one other entry stayed in flight; "
         "header_map: at least one get was served from the sled backend after a spill; "
         "ancestor_skip_list: at least one query >= 8 levels below its tip was answered off the main-chain shortcut with fewer header lookups than levels (skip pointers were followed); "
-        "locator_on_sync_shared: at least one get_locator call returned more than 11 hashes (the exponential-step phase ran)",
-        "samples": agg.samples[:6],
+        "locator_on_sync_shared: at least one get_locator call returned more than 11 hashes (the exponential-step phase ran). "
+        "The enumerated parts (*_all_sequences, ancestor_all_small_trees) use the rule of their structure; distinct counts of the parts are added (their operation alphabets differ)",
+        "samples": first_samples[:9],
         "parts": agg.parts,
         "part_timing": timing,
         "exhaustive": False,
+        "determinism_selfcheck": f"{n_det} scenarios (3 per kind) executed twice in separate processes: identical event-log hash and verdict",
+        "enumeration": "parts *_all_sequences run EVERY operation sequence up to the stated length over a small alphabet (orphan: 5-block forest under two absent parents, 4 release targets, 2 clean-up epochs = 11 symbols; "
+        "in-flight: 2 peers x 2 blocks inserts, 2 arrivals, 2 departures, mark-slow, prune, clock +1501 ms, clock +30001 ms = 12 symbols; header map: 2 keys (one with two values), get/remove each, spill, memory limit 1 = 8 symbols); "
+        "ancestor_all_small_trees runs every trunk length up to the bound x every fork point x branch length {1,2,5} x main tip {genesis, fork point, trunk tip} and asks EVERY (tip, height) query incl. tip+1. "
+        "Exhaustive within those bounds, sampled beyond: " + json.dumps(enumerated, sort_keys=True),
         "fault_kinds_fired": agg.faults,
         "probes_hit": agg.probes,
         "distinct_operation_sequences": agg.distinct_interleavings,
